@@ -17,6 +17,8 @@ FUNCS = [("declarations_t::add_function", r"^bool declarations_t::add_function\(
          ("Document::add_template", r"^template_t& Document::add_template\(const string& name, frame_t params, position_t position, const bool is_TA,\s*const string& typeLSC, const string& mode\)"),
          ("Document::add_dynamic_template", r"^template_t& Document::add_dynamic_template\(const std::string& name, frame_t params, position_t pos\)"),
          ("Document::add_instance", r"^instance_t& Document::add_instance\(const string& name, instance_t& inst, frame_t params,\s*const vector<expression_t>& arguments, position_t pos\)"),
+         ("Document::add_LSC_instance", r"^instance_t& Document::add_LSC_instance\(const string& name, instance_t& inst, frame_t params,\s*const vector<expression_t>& arguments, position_t pos\)"),
+         ("Document::add_process", r"^void Document::add_process\(instance_t& instance, position_t pos\)"),
          ("Document::add_variable(declarations_t*)", r"^variable_t\* Document::add_variable\(declarations_t\* context, type_t type, const string& name, expression_t initial,\s*position_t pos\)"),
          ("Document::add_variable_to_function", r"^variable_t\* Document::add_variable_to_function\(function_t\* function, frame_t frame, type_t type, const string& name,\s*expression_t initial, position_t pos\)"),
          ("Document::add_variable(list&)", r"^variable_t\* Document::add_variable\(list<variable_t>& variables, frame_t frame, type_t type, const string& name,\s*position_t pos\)")]
@@ -58,7 +60,8 @@ def build(tier, work, builder):
     jobs = []
     for nm, fns in (("location", ["template_t::add_location"]), ("branchpoint", ["template_t::add_branchpoint"]), ("edge", ["template_t::add_edge"]),
                     ("function", ["declarations_t::add_function"]), ("variable", ["Document::add_variable (3 overloads)", "Document::add_variable_to_function"]),
-                    ("template", ["Document::add_template", "Document::add_dynamic_template"]), ("instance", ["Document::add_instance"])):
+                    ("template", ["Document::add_template", "Document::add_dynamic_template"]), ("instance", ["Document::add_instance"]),
+                    ("lsc_instance", ["Document::add_LSC_instance"]), ("process", ["Document::add_process"])):
         jobs.append(F.Job("c08_" + nm, "h_c08_" + nm, [obj, hobj], timeout=300, unwind=14, functions=fns,
                           bound_note="containers of <= 4 elements, frames of <= 3 symbols"))
     return {
@@ -68,7 +71,7 @@ def build(tier, work, builder):
                          "std::list/std::deque never move their elements (pointer stability: the reason the real containers were chosen)",
                          "type constructors over frames (type_t::create_instance etc.): the arity of the result is the size of the frame"],
         "assumptions": ["that no later code overwrites uid / the user pointer, and that edge end points handed to add_edge belong to the edge's own template (decided by resolve at the call site in the builders) are not under contract",
-                        "Document::add_process / add_LSC_instance and 'an accepted TA template has an initial location' are not under contract",
+                        "'an accepted TA template has an initial location' is not under contract (add_process / add_LSC_instance are, since round 11)",
                         "the invariants are shown to be established/preserved by each constructor; that parses only ever go through these constructors is the builders' business"],
         "explanation": "",
     }
